@@ -39,7 +39,8 @@ PARTIAL = ['SF.C07.resolve_holds_partial: the full statement (every held value s
            'resolve_holds_counterexample, replayed as finding F5); proved under `lossyInto a (resolve a b) = false`, '
            'and lossy_characterisation says exactly which promotions that excludes']
 CORR_ONLY = ['every merging site (reindex/shift with fill value, from_concat both axes, assign element/array/Series/Frame, '
-             'fillna / fillna_leading / fillna_trailing, from_overlay, insert_before/after, from_records, from_items, '
+             'fillna / fillna_leading / fillna_trailing, fillna_forward/backward(axis=1), from_overlay, insert_before/after, pivot_unstack / pivot_stack with a fill value, '
+             'loc_searchsorted with a fill value, Frame.bloc selection, from_records, from_items, '
              'Series/Index from Python values, row consolidation via .values / iter_array(1) / row Series): oracle on the real code only '
              '(the model proves the merge pattern `empty(resolve_dtype_iter); write`, not that each site uses it)',
              'untouched columns keep their dtype (oracle only)']
@@ -53,23 +54,6 @@ TRUSTED = ['tools/py2lean_dtype.py (translator of the branch skeleton of resolve
 ASSUMPTIONS = ['datetime64/timedelta64 range overflow on unit conversion is not modelled (probing values are within 1678-2262)',
                'float values are modelled by the narrowest IEEE width that represents them exactly (probing values)']
 BUDGET = {'quick': 60, 'thorough': 700}
-
-# --------------------------------------------------------------------------- translation route
-def _regen_gen_dtype():
-    """Regenerate lean/SFModel/Gen/DType.lean from the current source before the build (check.py imports this module
-    first).  The shared hook `sfv.lean.regen` only runs tools/py2lean.py; see the report for the one-line integration."""
-    import os
-    import subprocess
-    import sys
-    tool = os.path.join(os.path.dirname(os.path.dirname(os.path.dirname(os.path.dirname(os.path.abspath(__file__))))), 'tools', 'py2lean_dtype.py')
-    try:
-        p = subprocess.run([sys.executable, tool, '--repo', os.environ.get('SFV_REPO', '/repo')], capture_output=True, text=True, timeout=120)
-        return [l for l in p.stdout.splitlines() if 'TRANSLATION-ERROR' in l] + ([p.stderr[-300:]] if p.returncode not in (0, 1) else [])
-    except Exception as ex:   # pragma: no cover
-        return [f'py2lean_dtype did not run: {ex}']
-
-
-TRANSLATION_ERRORS = _regen_gen_dtype()
 
 # --------------------------------------------------------------------------- universe
 HAS_LD = hasattr(np, 'float128')
@@ -379,7 +363,6 @@ def nontrivial(c):
 def cases(ctx):
     rng = ctx.rng('main')
     quick = ctx.tier == 'quick'
-    yield {'k': 'translate'}
     # (A) exhaustive table
     for a in UNIVERSE:
         for b in UNIVERSE:
@@ -496,8 +479,6 @@ def holds_probes():
 def evaluate(ctx, c, outs):
     k = c['k']
     ctx.count('kind_' + k)
-    if k == 'translate':
-        return [Failure('corr', f'translation of util.py: {e}', c) for e in TRANSLATION_ERRORS]
     if k == 'pair':
         return eval_pair(ctx, c, outs)
     if k == 'iter':
@@ -1532,14 +1513,10 @@ def classify(f):
             return 'F30-c07-tuple-fill-refused'
         if site == 's_searchsorted' and d['exc'] == 'ValueError' and 'cannot assign' in d.get('msg', '') and d.get('e') in TUPLES:
             return 'F30-c07-tuple-fill-refused'
-        if site == 'f_pivot' and d.get('layout') == 1 and d['exc'] == 'ValueError' and 'inhomogeneous' in d.get('msg', '') and d.get('e') in TUPLES:
+        if site == 'f_pivot' and d['exc'] == 'ValueError' and 'inhomogeneous' in d.get('msg', '') and d.get('e') in TUPLES:
             return 'F30-c07-tuple-fill-refused'
-        if site == 'f_pivot' and d.get('layout') == 0 and d['exc'] in ('OverflowError', 'TypeError', 'ValueError'):
-            return 'F32-c07-pivot-unstack-fill-dtype'
         return None
     supc, stoc = d.get('supc'), d.get('stoc')
-    if site == 'f_pivot' and d.get('layout') == 0 and d.get('where', '').startswith("pivot_unstack cell ('p', ('A', 2))"):
-        return 'F32-c07-pivot-unstack-fill-dtype'
     if supc == 'num' and stoc == 'num' and d.get('sup_big') and d.get('sto_inexact') and d.get('rounded'):
         return 'F5-c07-int64-float64'
     if stoc == 'num' and d.get('sto_ticks') and (
